@@ -18,7 +18,7 @@ ASSUMPTIONS = [
     'bezier_intersections: the theorem bounds the distance of a reported pair by the widths of two boxes of area < tol_deC (reported_close), '
     'not by 1e-5 of the size; bezier_bounding_box / halve_bezier enter as the contract EnvSound (containment: C08, restriction: C09/C19)',
     'Arc.point_to_t is modelled and proved sound for points ON the ellipse under the exact reading of np.isclose (pointToT_sound); the '
-    'six-way case split of the circle-circle branch and the vertical-line branch of Arc.intersect(Line) are sampled only',
+    'the six-way case split of the circle-circle branch of Arc.intersect is sampled only',
     'numpy phase()/degrees(): phase2t is modelled over R with pi = Real.pi and compared exactly with a rational stand-in for pi',
 ]
 
@@ -278,6 +278,59 @@ def gen_defs(spt, salt=0):
                 Def('al_p22x', args + ['s'], node(pts[3].real), 'candidate (x2, y2) + center, real part', env),
                 Def('al_p22y', args + ['s'], node(pts[3].imag), 'candidate (x2, y2) + center, imaginary part', env)]
     defs += retry(job_al, 'c11/al' + sfx)
+
+    # ---- Arc.intersect(Line), unrotated arc, VERTICAL line ---------------------------------------------------------------
+    def job_alv(r):
+        env = {}
+        a_, b_ = Fr(r.randint(1, 5)), Fr(r.randint(1, 5), 2)
+        c = (rfrac(r), rfrac(r))
+        u = r.choice([(Fr(3, 5), Fr(4, 5)), (Fr(5, 13), Fr(12, 13)), (Fr(-8, 17), Fr(15, 17)), (Fr(-3, 5), Fr(4, 5))])
+        xq = c[0] + a_ * u[0]                       # the vertical line x = xq meets the ellipse at cy +- b*u_y
+        arc = P.Arc.__new__(P.Arc)
+        arc.rotation = 0
+        env['a'], env['b'] = a_, b_
+        arc.radius = st.Cx(st.R.var('a', a_), st.R.var('b', b_))
+        arc.center = _cx('c', c[0], c[1], env)
+        lx = st.R.var('lx', xq); env['lx'] = xq
+        y0, y1 = c[1] - 2 * b_, c[1] + 3 * b_
+        env['l0y'], env['l1y'] = y0, y1
+        line = P.Line(st.Cx(lx, st.R.var('l0y', y0)), st.Cx(lx, st.R.var('l1y', y1)))    # the SAME symbol for both x
+        rec = {'pts': [], 'sq': []}
+        saved = (P.sqrt, P.Arc.point_to_t)
+        had_complex = hasattr(P, 'complex')
+
+        def my_sqrt(x):
+            rec['sq'].append(x)
+            sv = st._exact_sqrt(x.val)
+            assert sv is not None, x.val
+            env['s'] = sv
+            return st.R.var('s', sv)
+
+        def my_pt(self, p):
+            rec['pts'].append(p)
+            return None
+        ctx_ = st.TraceCtx.current
+        old_eq = ctx_.allow_eq
+        try:
+            ctx_.allow_eq = True          # the branch test `direction.real == 0` holds by construction
+            P.sqrt = my_sqrt
+            P.Arc.point_to_t = my_pt
+            P.complex = lambda x, y: st.Cx(x, y)
+            res = P.Arc.intersect(arc, line)
+        finally:
+            ctx_.allow_eq = old_eq
+            P.sqrt, P.Arc.point_to_t = saved
+            if not had_complex:
+                del P.complex
+        assert res == [] and len(rec['sq']) == 1 and len(rec['pts']) == 2, (res, len(rec['sq']), len(rec['pts']))
+        args = ['a', 'b', 'cx', 'cy', 'lx', 'l0y', 'l1y']
+        pts = rec['pts']
+        return [Def('alv_disc', args, node(rec['sq'][0]), 'Arc.intersect(Line), unrotated arc, vertical line: the discriminant 1 - c^2/a^2 (argument of sqrt)', env),
+                Def('alv_p1x', args + ['s'], node(pts[0].real), 'vertical line: first candidate + center, real part (s stands for sqrt(discriminant))', env),
+                Def('alv_p1y', args + ['s'], node(pts[0].imag), 'vertical line: first candidate + center, imaginary part', env),
+                Def('alv_p2x', args + ['s'], node(pts[1].real), 'vertical line: second candidate + center, real part', env),
+                Def('alv_p2y', args + ['s'], node(pts[1].imag), 'vertical line: second candidate + center, imaginary part', env)]
+    defs += retry(job_alv, 'c11/alv' + sfx)
 
     # ---- Line.point_to_t ----------------------------------------------------------------------------------------------------
     def job_lpt(r):
